@@ -373,6 +373,59 @@ func runAct(c ACase) (map[string]int, error) {
 				}
 			}
 			feat["leave"]++
+		case "lagjoin":
+			// A node joins and its own membership view lags behind: the others already list it (and have
+			// sent it their actor topology), its own provider has only reported the node itself so far.
+			// The ids it resolves are "known to the cluster" for it: activating one of them again must
+			// return nil and spawn nothing.  Then the full snapshot arrives.
+			if joined[op.Node] || gone[op.Node] {
+				continue
+			}
+			x := op.Node
+			joined[x] = true
+			var full []*cluster.Member
+			for _, i := range joinedList() {
+				full = append(full, cls[i].Member())
+			}
+			cls[x].Engine().Send(cls[x].PID(), &cluster.Members{Members: []*cluster.Member{cls[x].Member()}})
+			cls[x].Members()
+			for _, i := range joinedList() {
+				if i != x {
+					cls[i].Engine().Send(cls[i].PID(), &cluster.Members{Members: full})
+				}
+			}
+			for _, i := range joinedList() {
+				if i != x {
+					cls[i].Members() // they have processed the join: their topology is in x's inbox
+				}
+			}
+			cls[x].Members() // ... and x has processed it
+			probes := 0
+			for id := 0; id < 3 && probes < 3; id++ {
+				for _, k := range nodeKinds[x] {
+					dk := fmt.Sprintf("%s/%d", k, id)
+					if model[dk] == nil {
+						continue
+					}
+					if got := cls[x].GetActiveByID(dk); got == nil || !got.Equals(model[dk]) {
+						continue // x does not resolve it (yet): C19 says nothing about this attempt
+					}
+					probes++
+					pid := cls[x].Activate(k, cluster.NewActivationConfig().WithID(fmt.Sprint(id)))
+					if pid != nil {
+						return nil, fmt.Errorf("%s: n%d resolves %s to %v, yet Activate(%q, %d) on n%d (whose own member view still lists only itself) returned %v: a second actor with a cluster-wide id",
+							what, x, dk, model[dk], k, id, x, pid)
+					}
+					feat["duplicate-attempt-from-a-lagging-joiner"]++
+				}
+			}
+			cls[x].Engine().Send(cls[x].PID(), &cluster.Members{Members: full})
+			cls[x].Members()
+			for _, i := range joinedList() {
+				cls[i].Members()
+			}
+			feat["join"]++
+			feat["join-with-lagging-view"]++
 		case "swap":
 			// one snapshot in which a member has left AND another has joined (what a polling provider
 			// reports when both happened between two polls)
@@ -419,7 +472,7 @@ func genAct(t *rapid.T) ACase {
 	}
 	n := rapid.IntRange(1, 14).Draw(t, "ops")
 	for i := 0; i < n; i++ {
-		op := AOp{K: rapid.SampledFrom([]string{"activate", "activate", "activate", "activate", "deactivate", "cspawn", "join", "leave", "swap"}).Draw(t, "k")}
+		op := AOp{K: rapid.SampledFrom([]string{"activate", "activate", "activate", "activate", "deactivate", "cspawn", "join", "lagjoin", "leave", "swap"}).Draw(t, "k")}
 		op.Via = rapid.IntRange(0, 3).Draw(t, "via")
 		switch op.K {
 		case "activate", "deactivate":
@@ -428,7 +481,7 @@ func genAct(t *rapid.T) ACase {
 			op.Sel = rapid.IntRange(0, 3).Draw(t, "sel")
 		case "cspawn":
 			op.ID = rapid.IntRange(0, 2).Draw(t, "id")
-		case "join", "leave":
+		case "join", "leave", "lagjoin":
 			op.Node = rapid.IntRange(0, 3).Draw(t, "node")
 		case "swap":
 			op.Node = rapid.IntRange(0, 3).Draw(t, "node")
